@@ -307,11 +307,17 @@ def run_impl(func_path: str, cases: list, case_timeout: float = 10.0, jobs: int 
 # ----------------------------------------------------------------------------------------------
 
 def load_findings(prop: str) -> dict:
-    p = VERIF / "known_findings.json"
-    if not p.exists():
-        return {}
-    d = json.loads(p.read_text())
-    return {f["id"]: f for f in d.get("findings", []) if f.get("property") == prop}
+    """known_findings.json is assembled from findings.d/*.json by tools/mkmanifest.py (both committed)."""
+    out = {}
+    files = sorted((VERIF / "findings.d").glob("*.json")) if (VERIF / "findings.d").is_dir() else []
+    if not files and (VERIF / "known_findings.json").exists():
+        files = [VERIF / "known_findings.json"]
+    for p in files:
+        d = json.loads(p.read_text())
+        for f in d.get("findings", []):
+            if f.get("property") == prop:
+                out[f["id"]] = f
+    return out
 
 
 def write_replay(prop: str, seed: int, payload: dict) -> str:
